@@ -170,6 +170,17 @@ def run(ctx, model_ok=True, proofs_broken=False):
     lines += lib.load_fuzz_lines(("fn parse_uri ", "fn hostport ", "fn validate_hostname ", "fn inet6 ", "fn norm_uri "))
     corpus = lib.load_corpus("C13")
     scripts = corpus + [[l] for l in lines]
+    # CONNECT targets go through htp_parse_uri_hostport (authority form) inside the request-line processing: judged on the raw components
+    # of the connection-level dump (seeded change C13e: the host was dropped when it failed validation)
+    auths = [b"internal..corp:443", b"a.b:80", b"user@x:1", b"[a]:443", b"[::1]:443", b"h:0", b"H.Example:443", b"a_b:8", b"-x:1", b"a..b", b"ab",
+             b".:1", b"a.:2", b"x:65536", b"x:", b"[::1]", b"a%b:1", b"a/b:1", b"x:99999999999"]
+    for _ in range(60 if ctx.tier == "quick" else 1500):
+        auths.append(bytes(rng.choice(b"aA.-_09@[]:%") for _ in range(rng.randint(1, 9))))
+    for a in auths:
+        if any(c in a for c in b" \t\r\n"):
+            continue
+        scripts.append(["conn new - -", "conn open", "conn req " + hx(b"CONNECT " + a + b" HTTP/1.1\r\nHost: " + a + b"\r\n\r\n"),
+                        "conn dump", "conn destroy"])
     if model_ok:
         nlines, disagreements, c_outs, san = lib.corr_scripts(ctx, scripts, "uri")
     else:
@@ -183,6 +194,24 @@ def run(ctx, model_ok=True, proofs_broken=False):
     fam = {}
     nontrivial = 0
     for sc, outs in c_outs:
+        if sc and sc[0].startswith("conn "):
+            fam["connect"] = fam.get("connect", 0) + 1
+            import re as _re2
+            target = unhx(sc[2].split(" ")[2]).split(b" ")[1]
+            dump = next((o for l, o in zip(sc, outs) if l == "conn dump"), "")
+            m = _re2.search(r"raw=\[(\S+) (\S+) (\S+) (\S+) (\S+) (-?\d+) ", dump)
+            if m:
+                def fld(x):
+                    return None if x == "~" else (b"" if x == "-" else unhx(x))
+                host, port = fld(m.group(4)), fld(m.group(5))
+                distinct.add(("connect", m.group(0)))
+                j = target.find(b"]")
+                whole_reject = target.startswith(b"[") and (j < 0 or (j + 1 < len(target) and target[j + 1:j + 2] != b":"))
+                rj = (host or b"") + ((b":" + port) if port is not None else b"")
+                if not whole_reject and rj.lower() != target.lower():
+                    found.setdefault("connect-rejoin", []).append({"line": sc[2], "target": repr(target), "impl": m.group(0),
+                        "what": "CONNECT target %r: host [':' port] re-joins to %r" % (target, rj)})
+            continue
         for line, got in zip(sc, outs):
             t = line.split(" ")
             fam[t[1]] = fam.get(t[1], 0) + 1
@@ -243,7 +272,7 @@ def run(ctx, model_ok=True, proofs_broken=False):
         bad = None
         for line, got in zip(d.get("script", []), d.get("impl", [])):
             t = line.split(" ")
-            if t[1] == "parse_uri":
+            if t[0] == "fn" and t[1] == "parse_uri":
                 r = oracle_parse_uri(unhx(t[2]), got)
                 if r and r[0] not in known:
                     bad = r
